@@ -221,6 +221,22 @@ def run(rep, tier, scratch, only=None):
     rep.exhaustive = (tier == 'thorough')
 
 
+def collisions_for(rep, scratch, stride=3):
+    """For C01 ('each update ... is applied exactly once ... never lost'): the
+    Topology cases in which several port variables of the process are wired to
+    one node, run under the report of C01.  Every amount the process returns
+    for such a node must arrive (the sum is what the node changes by)."""
+    cases = table.run_table(rep, 'Topology', 'Topology_2ports_c01',
+                            table.cfg({'MaxPorts': 2, 'Locs2': 'FALSE'}, LAWS), scratch)
+    cases.sort(key=tc.case_id)
+    hit = [c for c in cases
+           if len({tuple(x['node']) for x in c['vars']}) < len(c['vars'])]
+    for c in hit[::stride]:
+        check_case(rep, c)
+        check_case(rep, c, wrap=True)
+    rep.notes['colliding_port_cases'] = len(hit[::stride])
+
+
 def check(prop, tier, seed):
     rep = Report(prop, tier, seed)
     rep.rule = ('every well-formed combination of 1-2 ports of kind leaf / branch{a} / '
